@@ -319,6 +319,11 @@ func interpret(ops []Op) *ModelOut {
 					delete(mm.Fields, pf.SIndex)
 					continue
 				}
+				if (pf.Kind == kindUTC || pf.Kind == kindLocal) && v == invalidCanon(pf) && mm.DontCare[pf.SIndex] {
+					// invalid time leaves the field untouched: it keeps the (unchecked)
+					// value the compressed header gave it
+					continue
+				}
 				delete(mm.DontCare, pf.SIndex)
 				if pf.Kind == kindNative && !pf.Array && baseOf(pf.Base).String && v == `s""` {
 					// empty string leaves the field as it was (invalid = "")
